@@ -219,6 +219,32 @@ def copyglyph (req : Json) : R Reply := do
   let m := glyphRecJ (copyGlyph src)
   return { model := Json.mkObj [("ufoLib2", m), ("defcon", m)], holds := holdsCopy src u d }
 
+def asUfoLib (s : String) : R UfoLib :=
+  match s with
+  | "ufoLib2" => pure .ufoLib2
+  | "defcon" => pure .defcon
+  | _ => throw s!"unknown UFO library {s}"
+
+/-- op "vfinfo": infoCompiler.InfoCompiler.__init__ on a ufoLib2 and on a defcon master.  in: `ov` (the overrides, in
+dict order), `before` (lib ↦ the master's Info, all attributes, sorted by name); obs: lib ↦ {after, temp} -/
+def vfinfo (req : Json) : R Reply := do
+  let i ← field req "in"
+  let ov ← asDictS (← field i "ov")
+  let o ← field req "obs"
+  let mut models : List (String × Json) := []
+  let mut ok := true
+  for name in ["ufoLib2", "defcon"] do
+    let lib ← asUfoLib name
+    let before ← asDictS (← field (← field i "before") name)
+    let ol ← field o name
+    let after ← asDictS (← field ol "after")
+    let temp ← asDictS (← field ol "temp")
+    let r := infoInit lib ⟨[before]⟩ 0 ov
+    let dJ (d : InfoD) : Json := listJ (pairJ Json.str Json.str) (sortOn strLe Prod.fst d)
+    models := models ++ [(name, Json.mkObj [("after", dJ (r.1.get 0)), ("temp", dJ (r.1.get r.2))])]
+    ok := ok && holdsInfoStable before after && holdsOverride before ov temp
+  return { model := Json.mkObj models, holds := ok }
+
 def handle (op : String) (req : Json) : R Reply :=
   match op with
   | "digests" => digests req
@@ -232,6 +258,7 @@ def handle (op : String) (req : Json) : R Reply :=
   | "glyphclass" => glyphclass req
   | "toadd" => toadd req
   | "copyglyph" => copyglyph req
+  | "vfinfo" => vfinfo req
   | _ => throw s!"C08: unknown op {op}"
 
 end Ufo2ft.Drv.C08
